@@ -42,6 +42,11 @@ pub struct State {
     /// cap on bytes handed out per read
     pub max_read: Option<usize>,
     pub eof_seen_by_client: bool,
+    /// back-pressure: once `total_written` reaches this value, writes return Pending (the peer
+    /// "stopped reading and the socket buffers are full") until released
+    pub write_stall_at: Option<usize>,
+    pub write_waker: Option<Waker>,
+    pub write_stalls_hit: u32,
 }
 
 pub type Shared = Arc<Mutex<State>>;
@@ -86,12 +91,21 @@ impl AsyncRead for ClientEnd {
 }
 
 impl AsyncWrite for ClientEnd {
-    fn poll_write(self: Pin<&mut Self>, _cx: &mut Context<'_>, buf: &[u8]) -> Poll<io::Result<usize>> {
+    fn poll_write(self: Pin<&mut Self>, cx: &mut Context<'_>, buf: &[u8]) -> Poll<io::Result<usize>> {
         let mut s = self.0.lock().unwrap();
         if s.client_shutdown {
             return Poll::Ready(Err(io::Error::new(io::ErrorKind::BrokenPipe, "write after shutdown")));
         }
         let mut n = buf.len();
+        if let Some(k) = s.write_stall_at {
+            let allowed = k.saturating_sub(s.total_written);
+            if allowed == 0 {
+                s.write_waker = Some(cx.waker().clone());
+                s.write_stalls_hit += 1;
+                return Poll::Pending;
+            }
+            n = n.min(allowed);
+        }
         if let Some(k) = s.write_fail_at {
             let allowed = k.saturating_sub(s.total_written);
             if allowed == 0 {
@@ -151,6 +165,28 @@ pub struct ServerEnd {
 pub fn pair() -> (ClientEnd, ServerEnd) {
     let sh: Shared = Arc::new(Mutex::new(State::default()));
     (ClientEnd(sh.clone()), ServerEnd { sh, buf: vec![], log: vec![], sent_bytes: 0 })
+}
+
+/// Handle for steering the transport from outside the server task (back-pressure on client writes).
+#[derive(Clone)]
+pub struct PipeCtl(pub Shared);
+
+impl PipeCtl {
+    /// Accept `more` further bytes from the client, then make its writes wait.
+    pub fn stall_writes_after(&self, more: usize) {
+        let mut s = self.0.lock().unwrap();
+        s.write_stall_at = Some(s.total_written + more);
+    }
+    pub fn release_writes(&self) {
+        let mut s = self.0.lock().unwrap();
+        s.write_stall_at = None;
+        if let Some(w) = s.write_waker.take() {
+            w.wake();
+        }
+    }
+    pub fn write_stalls_hit(&self) -> u32 {
+        self.0.lock().unwrap().write_stalls_hit
+    }
 }
 
 /// Cloneable sending half of the server end (for delayed / out-of-order responders).
@@ -249,6 +285,24 @@ impl ServerEnd {
         let mut s = self.sh.lock().unwrap();
         s.write_fail_at = Some(total_bytes);
         s.write_err = Some(kind);
+    }
+    /// Accept `more` further bytes from the client, then make its writes wait.
+    pub fn stall_writes_after(&mut self, more: usize) {
+        let mut s = self.sh.lock().unwrap();
+        s.write_stall_at = Some(s.total_written + more);
+    }
+    pub fn release_writes(&mut self) {
+        let mut s = self.sh.lock().unwrap();
+        s.write_stall_at = None;
+        if let Some(w) = s.write_waker.take() {
+            w.wake();
+        }
+    }
+    pub fn write_stalls_hit(&self) -> u32 {
+        self.sh.lock().unwrap().write_stalls_hit
+    }
+    pub fn ctl(&self) -> PipeCtl {
+        PipeCtl(self.sh.clone())
     }
     pub fn inject_spurious_reads(&mut self, n: u32) {
         self.sh.lock().unwrap().spurious_reads += n;
